@@ -60,13 +60,9 @@ Fixpoint find_val (f : nat -> Z) (v : Z) (c : list nat) (k : nat) : option nat :
   | o :: r => if Z.eqb (f o) v then Some k else find_val f v r (S k)
   end.
 
-(* __setitem__ with a slice:
-     if index.stop is None: stop = len(self)
-     elif index.stop < 0: stop = len(self) + index.stop
-     else: stop = index.stop
-     step = index.step or 1
-     start = index.start or 0
-     rng = list(range(index.start or 0, stop, step))
+(* __setitem__ with a slice (as repaired by 99130b4):
+     start, stop, step = index.indices(len(self))
+     rng = list(range(start, stop, step))
      sized_value = list(value)
      if step == 1:
          for i in rng: del self[start]
@@ -74,9 +70,7 @@ Fixpoint find_val (f : nat -> Z) (v : Z) (c : list nat) (k : nat) : option nat :
          for item in sized_value: self.insert(i, item); i += 1
      else:
          if len(sized_value) != len(rng): raise ValueError
-         for i, item in zip(rng, value): self._set(self.col[i], item) *)
-Definition or_dflt (o : option Z) (d : Z) : Z :=
-  match o with None => d | Some v => if Z.eqb v 0 then d else v end.
+         for i, item in zip(rng, sized_value): self._set(self.col[i], item) *)
 Fixpoint pl_del_loop (n : nat) (start : Z) (s : px) : pres * px :=
   match n with
   | O => (POk, s)
@@ -99,21 +93,18 @@ Fixpoint pl_set_loop (ivs : list (Z * Z)) (s : px) : pres * px :=
                    end
   end.
 Definition pl_setslice (s : px) (sl : pyslice) (vs : list Z) : pres * px :=
-  let n := zlen (col s) in
-  let stop := match sstop sl with
-              | None => n
-              | Some t => if (t <? 0)%Z then (n + t)%Z else t
-              end in
-  let step := or_dflt (sstep sl) 1%Z in
-  let start := or_dflt (sstart sl) 0%Z in
-  let rng := range start stop step in
-  if Z.eqb step 1 then
-    match pl_del_loop (length rng) start s with
-    | (POk, s') => (POk, pl_ins_loop start vs s')
-    | r => r
-    end
-  else if Nat.eqb (length vs) (length rng) then pl_set_loop (combine rng vs) s
-  else (PRaise ValueError, s).
+  match adjust sl (zlen (col s)) with
+  | Raise e => (PRaise e, s)
+  | Ok (start, stop, step) =>
+      let rng := range start stop step in
+      if Z.eqb step 1 then
+        match pl_del_loop (length rng) start s with
+        | (POk, s') => (POk, pl_ins_loop start vs s')
+        | r => r
+        end
+      else if Nat.eqb (length vs) (length rng) then pl_set_loop (combine rng vs) s
+      else (PRaise ValueError, s)
+  end.
 
 Definition pl_clear (s : px) : px := with_col s [].      (* del self.col[0:len(self.col)] *)
 
@@ -175,20 +166,10 @@ Definition plop_ref (l : list Z) (o : plop) : pres * list Z :=
   | PAssign vs => (POk, vs)          (* l = vs *)
   end.
 
-(* where the list proxy is known not to be the builtin: slice assignment unless
-   0 <= start <= stop <= len and step = 1 (or an extended slice with indices in range);
-   *= with a negative count; reverse / sort (documented: not supported) *)
+(* where the list proxy is known not to be the builtin: *= with a negative count;
+   reverse / sort (documented: not supported) *)
 Definition pl_guard (s : px) (o : plop) : bool :=
-  let n := zlen (col s) in
   match o with
-  | PSetSlice sl vs =>
-      match sstep sl with
-      | None | Some 1%Z =>
-          let start := match sstart sl with None => 0%Z | Some a => a end in
-          let stop := match sstop sl with None => n | Some b => b end in
-          (0 <=? start)%Z && (start <=? stop)%Z && (stop <=? n)%Z
-      | Some _ => false
-      end
   | PIMul k => (0 <=? k)%Z
   | PReverse | PSort => false
   | _ => true
@@ -296,9 +277,8 @@ Definition pd_setitem (s : px) (k v : Z) : px :=
 Definition pd_del (s : px) (k : Z) : px :=
   with_col s (filter (fun o => negb (Z.eqb (pkey s o) k)) (col s)).
 
-(* results of the dict proxy: a value, or an exception; AttributeError is the getter applied to
-   the caller's default *)
-Inductive pdres := DOk (r : option Z) | DRaise (e : pyexn) | DAttrError.
+(* results of the dict proxy: a value, or an exception *)
+Inductive pdres := DOk (r : option Z) | DRaise (e : pyexn).
 
 Definition pd_step (s : px) (o : dop) : pdres * px :=
   match o with
@@ -309,10 +289,12 @@ Definition pd_step (s : px) (o : dop) : pdres * px :=
                   end
   | DClear => (DOk None, with_col s [])
   | DPop k dflt =>
-      (* member = self.col.pop(key, default?); return self._get(member) *)
+      (* as repaired by f24ff68:
+         if key not in self.col: return self.col.pop(key, default?)     - the default, or KeyError
+         return self._get(self.col.pop(key)) *)
       match find_key (pkey s) k (col s), dflt with
       | Some o, _ => (DOk (Some (pval s o)), pd_del s k)
-      | None, Some _ => (DAttrError, s)            (* getter(default) *)
+      | None, Some v => (DOk (Some v), s)
       | None, None => (DRaise KeyError, s)
       end
   | DPopItem =>
@@ -342,10 +324,9 @@ Definition pdop_ref (d : pydict) (o : dop) : pdres * pydict :=
   | (Raise e, d') => (DRaise e, d')
   end.
 
-(* pop(key, default) with an absent key calls the getter on the default *)
+(* `d |= m` does not exist on the proxy (MutableMapping has no __ior__) *)
 Definition pd_guard (s : px) (o : dop) : bool :=
   match o with
-  | DPop k (Some _) => match find_key (pkey s) k (col s) with Some _ => true | None => false end
   | DIor _ => false
   | _ => true
   end.
